@@ -373,6 +373,22 @@ EVOLVE_METHODS = ["prop_and_compress", "prop_and_compress_tdrk4", "prop_and_comp
 REGAUGE_EVOLVE = {"tdvp_mu_vmf", "tdvp_vmf", "tdvp_mu_cmf"}   # call self.ensure_left_canonical()
 
 
+def _prep_gauge(S, rng, canonical):
+    """the caller's own preparation (before the snapshot): the sweeping routines assert that the label centre
+    sits at the end the sweep starts from; over-complete bonds make the VMF/CMF schemes raise (D11)"""
+    n = S.site_num
+    if canonical:
+        S.ensure_left_canonical() if rng.random() < 0.5 else S.ensure_right_canonical()
+        return "canonical"
+    if S.to_right is None:
+        return "none"
+    want = 0 if S.to_right else n - 1
+    if S.qnidx != want:
+        S.move_qnidx(want)
+        return "move_qnidx"
+    return "none"
+
+
 def chain_ops(env):
     """every entry prepares one library call: returns None (not applicable) or
     (opname, argument names, regauge_ok, call, extra); `call()` performs the library call(s) only."""
@@ -623,7 +639,8 @@ def chain_ops(env):
         else:
             S.compress_config = CompressConfig(CompressCriteria.fixed, max_bonddim=16)
         norm = bool(rng.random() < 0.7)
-        extra = dict(method=method, imag=imag, adaptive=adaptive, dt=repr(dt), H=h, compress=mode,
+        prep = _prep_gauge(S, rng, canonical=(method in REGAUGE_EVOLVE and rng.random() < 0.6))
+        extra = dict(method=method, imag=imag, adaptive=adaptive, dt=repr(dt), H=h, compress=mode, prep=prep,
                      cls=type(S).__name__, normalize=norm, rk=kw.get("rk_solver"), ivp=kw.get("ivp_solver", "krylov"))
         return f"evolve:{method}", [s, h], method in REGAUGE_EVOLVE, lambda: S.evolve(H, dt, normalize=norm), extra
 
@@ -638,7 +655,8 @@ def chain_ops(env):
         H = env.objs[h]
         space = "GS" if rng.random() < 0.5 else "EX"
         dt = float(rng.choice([0.1, 0.7]))
-        extra = dict(space=space, dt=repr(dt), H=h, offset=float(H.offset), cls=type(S).__name__)
+        prep = _prep_gauge(S, rng, canonical=False)
+        extra = dict(space=space, dt=repr(dt), H=h, offset=float(H.offset), cls=type(S).__name__, prep=prep)
         return f"{type(S).__name__}.evolve_exact", [s, h], False, lambda: S.evolve_exact(H, dt, space), extra
 
     def op_optimize():
